@@ -4,13 +4,19 @@ package actor
 
 import (
 	"context"
+	"reflect"
+	"time"
 
+	"github.com/flowchartsman/retry"
+
+	"github.com/tochemey/goakt/v4/internal/xsync"
 	"github.com/tochemey/goakt/v4/log"
 )
 
 func init() {
 	vRegister("vC31_turns", vC31_turns)
 	vRegister("vC31_deactivate", vC31_deactivate)
+	vRegister("vC31_activation", vC31_activation)
 }
 
 // ---- ghost grain: records the callbacks of one activation
@@ -104,6 +110,188 @@ func vC31_deactivate() {
 	vAssert(vC31_deactivations <= 1, "OnDeactivate runs at most once per activation")
 	if vC31_deactivations == 1 {
 		vCover("deactivated")
+	}
+	vCover("end")
+}
+
+// ---- activation: the two activation paths (GrainIdentity/GrainOf: activateGrain -> activateGrainLocally; TellGrain/AskGrain:
+// ensureGrainProcess), the activation single-flight, the real (*grainPID).activate and the turn loop, for ONE grain identity
+
+const vC31nInst = 3 // grain instances: 0 = supplied by the GrainIdentity caller's factory, 1 = created from the registry, 2 = the retained process
+
+// ghost grain instance: records its callbacks; OnActivate has a begin and an end (other threads run in between)
+type vC31Grain struct{ idx int }
+
+var (
+	vC31_actBeg, vC31_actEnd [vC31nInst]int // OnActivate begun / completed, per instance
+	vC31_deaEnd              [vC31nInst]int // OnDeactivate completed, per instance
+	vC31_inAct               [vC31nInst]int // OnActivate in progress
+	vC31_recv                [vC31nInst]int // OnReceive calls, per instance
+	vC31_msgHandled          [4]int         // OnReceive calls, per message
+	vC31_inRecvID            int            // OnReceive in progress, over all instances of the identity
+	vC31_made                int            // instances created from the registry
+)
+
+// activations of the identity that began and were not deactivated since
+func vC31_live() int {
+	n := 0
+	for i := 0; i < vC31nInst; i++ {
+		n += vC31_actBeg[i] - vC31_deaEnd[i]
+	}
+	return n
+}
+
+func (g *vC31Grain) OnActivate(ctx context.Context, props *GrainProps) error {
+	vAssert(vC31_live() == 0, "OnActivate never starts while an activation of the same grain identity is in progress or live (one activation per identity at a time)")
+	vC31_actBeg[g.idx]++
+	vC31_inAct[g.idx]++
+	vYield()
+	vC31_inAct[g.idx]--
+	vC31_actEnd[g.idx]++
+	return nil
+}
+
+func (g *vC31Grain) OnReceive(gc *GrainContext) {
+	vAssert(vC31_inAct[g.idx] == 0 && vC31_actEnd[g.idx] > vC31_deaEnd[g.idx], "OnActivate of an activation completes before its first OnReceive")
+	vAssert(vC31_inRecvID == 0, "OnReceive of one grain identity never runs concurrently with itself (also not on two instances)")
+	vC31_inRecvID++
+	vC31_recv[g.idx]++
+	id := gc.message.(int)
+	vYield()
+	vC31_msgHandled[id]++
+	vC31_inRecvID--
+}
+
+func (g *vC31Grain) OnDeactivate(ctx context.Context, props *GrainProps) error {
+	vC31_deaEnd[g.idx]++
+	return nil
+}
+
+// the grain kind registry: every kind is registered
+type vC31Registry struct{}
+
+func (vC31Registry) Register(any)                       {}
+func (vC31Registry) Deregister(any)                     {}
+func (vC31Registry) Exists(any) bool                    { return true }
+func (vC31Registry) TypesMap() map[string]reflect.Type  { return nil }
+func (vC31Registry) Type(any) (reflect.Type, bool)      { return nil, false }
+func (vC31Registry) TypeOf(string) (reflect.Type, bool) { return nil, false }
+
+// substituted (*reflection).instantiateGrain (reflect.New of the registered type): a fresh ghost instance
+func vC31_instantiate(r *reflection, kind string) (Grain, error) {
+	vC31_made++
+	return &vC31Grain{idx: 1}, nil
+}
+
+// substituted (*GrainIdentity).Validate (regular expressions)
+func vC31_validateID(g *GrainIdentity) error { return nil }
+
+// substituted (*retry.Retrier).RunContext (external library): the first attempt
+func vC31_runContext(r *retry.Retrier, ctx context.Context, f func(context.Context) error) error {
+	return f(ctx)
+}
+
+// substituted (*actorSystem).localSend: its first step (the real ensureGrainProcess) and the enqueue; the reply wait is dropped
+func vC31_localSend(x *actorSystem, ctx context.Context, id *GrainIdentity, message any, timeout time.Duration, synchronous bool) (any, error) {
+	pid, err := x.ensureGrainProcess(ctx, id)
+	if err != nil {
+		return nil, err
+	}
+	pid.receive(&GrainContext{message: message, pid: pid, ctx: ctx, self: id})
+	return nil, nil
+}
+
+// the ready queue: one token channel for the identity (both processes of a duplicated activation land here)
+var vC31_readyQ chan *grainPID
+
+func vC31_scheduleQ(d *dispatcher, s schedulable) {
+	if g, ok := s.(*grainPID); ok {
+		vC31_readyQ <- g
+	}
+}
+func vC31_rescheduleQ(w *worker, s schedulable) { vC31_scheduleQ(w.dispatcher, s) }
+
+func vC31_workerQ(d *dispatcher, turns int) {
+	w := &worker{dispatcher: d}
+	for t := 0; t < turns; t++ {
+		g := <-vC31_readyQ
+		g.runTurn(w)
+	}
+}
+
+func vC31_system() *actorSystem {
+	sys := &actorSystem{logger: log.DiscardLogger, name: "sys"}
+	sys.started.Store(true)
+	sys.dispatcher = &dispatcher{throughput: 2}
+	sys.grains = xsync.NewMap[string, *grainPID]()
+	sys.registry = vC31Registry{}
+	sys.reflection = newReflection(vC31Registry{})
+	for i := 0; i < vC31nInst; i++ {
+		vC31_actBeg[i], vC31_actEnd[i], vC31_deaEnd[i], vC31_inAct[i], vC31_recv[i] = 0, 0, 0, 0, 0
+	}
+	vC31_msgHandled = [4]int{}
+	vC31_inRecvID, vC31_made = 0, 0
+	vC31_readyQ = make(chan *grainPID, 4)
+	return sys
+}
+
+// One grain identity that is not active: never used / deactivated earlier (no process in the grains map), or its process was
+// retained inactive (an OnDeactivate that returned an error keeps the process). Two callers use it at the same time: the first
+// resolves it (GrainIdentity / GrainOf -> activateGrain) or sends to it (TellGrain), the second sends to it; one worker runs the turns.
+func vC31_activation() {
+	sys := vC31_system()
+	id := &GrainIdentity{kind: "k", name: "g0", cachedStr: "k/g0"}
+	first := vCase("first")       // 0: GrainIdentity/GrainOf path, 1: TellGrain
+	retained := vCase("retained") // 1: an inactive process of the identity is in the grains map
+	if retained == 1 {
+		sys.grains.Set(id.String(), newGrainPID(id, &vC31Grain{idx: 2}, sys, newGrainConfig()))
+	}
+	var aerr, terr error
+	vGo("first", func() {
+		if first == 0 {
+			_, aerr = sys.activateGrain(context.Background(), id, staticGrainProvider(&vC31Grain{idx: 0}), newGrainConfig())
+		} else {
+			aerr = sys.TellGrain(context.Background(), id, 1)
+		}
+	})
+	vGo("tell", func() { terr = sys.TellGrain(context.Background(), id, 2) })
+	vGo("w", func() { vC31_workerQ(sys.dispatcher, 2) })
+	vRun()
+
+	vAssert(vC31_live() <= 1, "at most one activation of a grain identity is live")
+	vAssert(vC31_made <= 1, "at most one grain instance is created for a grain identity that is activated once")
+	if vThreadDone(0) && vThreadDone(1) {
+		vAssert(aerr == nil && terr == nil, "activation and send succeed")
+		// every live activation is the registered process of its identity: reachable for passivation, PoisonPill and Stop
+		p, ok := sys.grains.Get(id.String())
+		vAssert(ok && p.isActive(), "when the callers returned, the identity's registered process is active")
+		if ok {
+			g := p.grain.(*vC31Grain)
+			for i := 0; i < vC31nInst; i++ {
+				if i == g.idx {
+					vAssert(vC31_actBeg[i] == 1 && vC31_actEnd[i] == 1, "the registered process of the identity was activated exactly once")
+				} else {
+					vAssert(vC31_actBeg[i] == 0, "no grain instance other than the registered process of the identity was activated (an unregistered one never gets OnDeactivate)")
+				}
+			}
+			if retained == 1 {
+				vAssert(g.idx == 2, "a retained process is re-activated in place")
+			}
+		}
+		vCover("callers-returned")
+		if vStuck() {
+			// the worker drained everything that was scheduled
+			if len(vC31_readyQ) == 0 {
+				vAssert(vC31_msgHandled[2] == 1, "a message sent to an inactive grain is received exactly once by the activation it triggered or joined")
+				if first == 1 {
+					vAssert(vC31_msgHandled[1] == 1, "a message sent to an inactive grain is received exactly once by the activation it triggered or joined")
+				}
+				vCover("all-received")
+			}
+		}
+	}
+	for m := 1; m <= 2; m++ {
+		vAssert(vC31_msgHandled[m] <= 1, "a message sent to a grain is handed to OnReceive at most once")
 	}
 	vCover("end")
 }
